@@ -476,7 +476,7 @@ func checkReplyProtocol(w *World, r *Report, pfx string) {
 					continue
 				}
 				// requester: exactly one receive on the offer arm, none elsewhere
-				w.enumPaths(fn, pathOpts{InlineDepth: 0}, func(p *Path) {
+				w.enumPaths(fn, off.opts(w), func(p *Path) {
 					k := p.armTaken(off.Sel)
 					if k < 0 {
 						return
